@@ -307,6 +307,35 @@ def rule_check_schema(ctx, rid="R4.4b"):
     return rule_wiring(ctx, rid)
 
 
+def rule_validate_total(ctx, rid="R4.7"):
+    """jsonschema.validate on ANY JSON value offered as schema: the class-selection step runs before check_schema, so it must
+    not raise anything of its own: whenever check_schema would raise, the caller is promised SchemaError."""
+    from ..interp import Interp
+    from ..kinds import ANY
+    from .c03 import run_entry
+    prog = ctx.prog
+    r = ctx.rule(rid, "jsonschema.validate raises SchemaError/ValidationError (or the documented resolver/type errors) for any JSON value "
+                      "offered as schema: selecting the class cannot raise on its own", floor=1)
+    I = Interp(prog, "draft7")
+    f = prog.func("validators.validate")
+    eff = run_entry(I, f, [ANY, ANY])
+    allowed = {"SchemaError", "ValidationError", "RefResolutionError", "UnknownType"}
+    found = {}
+    for x in eff:
+        if x.exc in allowed:
+            continue
+        found.setdefault(x.key(), x)
+    if not found:
+        r.ok(site(f), "escape set within %s" % sorted(allowed))
+    else:
+        r.pending(site(f), "escapes: %s" % sorted({x.exc for x in found.values()}))
+    for key, x in sorted(found.items()):
+        r.findings.append({"rule": r.id, "key": "%s|%s" % (r.id, key), "site": site(x.func, x.node),
+                           "msg": "%s can escape jsonschema.validate before/instead of SchemaError: %s%s" % (x.exc, x.op, (" -- operand %s" % x.operand) if x.operand else ""),
+                           "detail": {"call_chain": " <- ".join(reversed(x.chain)) if x.chain else ""}})
+    return r
+
+
 def run(ctx):
     ctx.explanation = (
         "C04 structural clauses: R4.1 who-calls (the four entry points reach keyword code only through iter_errors, with "
@@ -320,6 +349,7 @@ def run(ctx):
     rule_create_from(ctx)
     rule_check_schema(ctx)
     rule_best_match(ctx)
+    rule_validate_total(ctx)
     # R4.6: "repeating any call yields identical results" needs the resolver's scope restored on every exit (is_valid and
     # validate() abandon the error iterator at its first element)
     from . import scope
